@@ -365,7 +365,12 @@ def hook_args_by_order(docs, text, func_name, k, casts):
     """hook arguments derived from the clang-computed modified set, in declaration order, so that renaming a local does not
     break the hook: casts = list of cast prefixes per position, e.g. ['&', '&'] or ['(const void**)&', ...]"""
     mod = loop_modified(docs, text, func_name, k)
-    order = [n for n in decl_order(docs, func_name) if n in mod]
+    decls = decl_order(docs, func_name)
+    order = [n for n in decls if n in mod]
+    if len(order) < len(casts):
+        # the loop modifies fewer variables than the hook can havoc: pass further declared variables (havocking more is sound)
+        extra = [n for n in decls if n not in order][:len(casts) - len(order)]
+        order = [n for n in decls if n in order or n in extra]
     if len(order) != len(casts):
         raise ExtractError('loop %s.%d modifies %s; its hook expects %d variables' % (func_name, k, order, len(casts)))
     return ', '.join(c + n for c, n in zip(casts, order)), order
